@@ -17,6 +17,7 @@ for name in $(ls seeded | grep '^C[0-9][0-9]-'); do
   det=$(echo "$res" | grep "^check" | grep "exit 1" | awk '{print $2}' | tr '\n' ' ')
   napply=$(echo "$res" | grep -c "DOES NOT APPLY")
   if [ "$napply" != "0" ]; then det="PATCH DOES NOT APPLY TO THE CURRENT HEAD"; fi
+  case "$demo" in *"with=0") det="SUPERSEDED: on the current /repo head the change has no effect any more (its demonstration passes with it)";; esac
   echo "| $name | $demo | $tests | ${det:-NOT DETECTED} |" >> $out
 done
 rm -rf $tmp
